@@ -23,10 +23,12 @@
 (***************************************************************************)
 EXTENDS Integers, Sequences, FiniteSets, TLC
 
-CONSTANTS KIds, PVals, QVals, MaxLevel
+CONSTANTS KIds, PVals, QVals, MaxLevel,
+          QNull      \* {0}: q may be NULL too; {}: only p is nullable (smaller alphabet for the exported graph)
 
 NoRow == [ex |-> FALSE, p |-> 0, q |-> 0]
 Rows == [ex : BOOLEAN, p : PVals \cup {0}, q : QVals \cup {0}]
+QDom == QVals \cup QNull
 
 VARIABLES db, tx, cur,   \* committed rows / what the connection sees / the session's view: [KIds -> Rows]
           sess,          \* "none" | "open" | "aborted"
@@ -47,6 +49,7 @@ KeysOk(s) == \A k1, k2 \in KIds : k1 # k2 /\ Key(s[k1]) # <<>> => Key(s[k1]) # K
 
 SeedDbs == {d \in [KIds -> Rows] : /\ KeysOk(d)
                                    /\ \A k \in KIds : ~d[k].ex => d[k] = NoRow
+                                   /\ \A k \in KIds : d[k].ex => d[k].q \in QDom
                                    /\ d[1].ex /\ d[1].p = 1 /\ d[1].q = 1}
 
 Init == /\ db \in SeedDbs /\ tx = db /\ cur = db
@@ -225,7 +228,7 @@ EndExc ==
     /\ UNCHANGED db
 
 Next == \/ Begin \/ Flush \/ Commit \/ Rollback \/ End \/ EndExc
-        \/ \E k \in KIds, p \in PVals \cup {0}, q \in QVals \cup {0} : Create(k, p, q) \/ SetPQ(k, p, q)
+        \/ \E k \in KIds, p \in PVals \cup {0}, q \in QDom : Create(k, p, q) \/ SetPQ(k, p, q)
         \/ \E k \in KIds : Delete(k) \/ Get(k)
         \/ \E p \in PVals, q \in QVals : Find(p, q)
 
